@@ -190,6 +190,8 @@ fn run_conc(args: &[String]) -> i32 {
     j.kv_num(&format!("conc[{}].futures_completed", name), st.completed);
     j.kv_num(&format!("conc[{}].logical_deadlock_checks", name), st.deadlock_checks);
     j.kv_num(&format!("conc[{}].watchdogs", name), st.watchdogs);
+    j.kv_num(&format!("conc[{}].wakeups_delivered", name), st.wakes);
+    j.kv_num(&format!("conc[{}].stale_wakeups_ignored", name), st.stale_wakes);
     j.kv_num(&format!("conc[{}].discarded_runs", name), harness.len() as u64);
     for i in 0..16 {
         if st.sites[i] > 0 {
